@@ -58,13 +58,19 @@ def gen_case(rng):
             filt += [rng.choice(["--discard-untrimmed", "--discard-trimmed"])]
         if rng.random() < 0.3:
             filt += ["--max-n", "0"]
+        if rng.random() < 0.3:
+            filt += ["-M", str(rng.randint(10, 35))]
+        if rng.random() < 0.3:
+            filt += ["--discard-casava"]
+        if rng.random() < 0.2 and fmt == "fastq":
+            filt += ["--max-ee", rng.choice(["0.5", "2"])]
     post = []
     if rng.random() < 0.2:
         post += ["--trim-n"]
     if rng.random() < 0.2:
         post += ["-l", "20"]
     cores = rng.choice([1, 1, 1, 2])
-    feats = dict(maxlen=45, nruns=True, revcomp_some=revcomp, qual_profile=rng.choice(["decay", "mixed", "high", "decay"]), header=rng.choice(["plain", "comment"]))
+    feats = dict(maxlen=45, nruns=True, revcomp_some=revcomp, qual_profile=rng.choice(["decay", "mixed", "high", "decay"]), header="casava" if "--discard-casava" in filt else rng.choice(["plain", "comment", "casava"]))
     recs, _ = G.gen_reads(rng, rng.randint(15, 45), False, ads, **feats)
     return dict(ads=ads, fmt=fmt, pre=pre, adopts=adopts, filt=filt, post=post, times=times, revcomp=revcomp, cores=cores, recs=recs)
 
